@@ -138,6 +138,7 @@ func translateFunc(p *Prog, fn *ssa.Function, fc *FuncContract) (vc *VC) {
 	name := strings.TrimPrefix(funcKey(fn), modulePath+"/")
 	vc = newVC(p, name)
 	vc.props = fc.Props
+	vc.opaque = fc.Opaque
 	defer func() {
 		if r := recover(); r != nil {
 			if se, ok := r.(specErr); ok {
